@@ -1650,6 +1650,10 @@ where
         for n in probation.verif_walk("probation", &mut errs) {
             let node = unsafe { n.as_ref() };
             let elem = &node.element;
+            if elem.hash() == hash {
+                // the node of the key that is being lost itself
+                continue;
+            }
             let is_gone = !self
                 .cache
                 .get(elem.key())
